@@ -19,6 +19,7 @@ import Driver.Lib
 import NoKVModel.Queue.Model
 import NoKVModel.Queue.HandshakeModel
 import NoKVModel.Queue.CloserModel
+import NoKVModel.Queue.PackModel
 
 open NoKV NoKV.Queue Driver
 
@@ -26,6 +27,11 @@ structure DSt where
   cfg : QCfg := QCfg.good
   hcfg : HCfg := HCfg.good
   wcfg : CCfg := CCfg.good
+  pcfg : PCfg := PCfg.good
+  /-- MemTableSize of a small-memtable case (0 = large, packing never decides anything) -/
+  mt : Nat := 0
+  /-- the commit worker is spinning in SetBatch: nothing returns any more -/
+  dead : Bool := false
   /-- false when the cfg line does not carry q.getClosed (C37 runs: for a `Get` after Close only
       "it returned" matters there, both sides print `returned`) -/
   getKnown : Bool := false
@@ -72,6 +78,9 @@ def setCfg (st : DSt) (kv : String) : Option DSt :=
       if v == "notfound" then some { st with getKnown := true, cfg := { st.cfg with getClosed := .notfound } }
       else if v == "closedErr" then some { st with getKnown := true, cfg := { st.cfg with getClosed := .closedErr } }
       else none
+    | "lsm.batchFitOp" => do let o ← CmpOp.ofString? v; pure { st with pcfg := { st.pcfg with fitOp := o } }
+    | "lsm.rotateGuardOp" => do let o ← CmpOp.ofString? v; pure { st with pcfg := { st.pcfg with guardOp := o } }
+    | "lsm.oversizeAlone" => do let b ← boolOfString? v; pure { st with pcfg := { st.pcfg with oversizeAlone := b } }
     | "q.getGuard" => do let b ← boolOfString? v; pure { st with wcfg := { st.wcfg with getGuard := b } }
     | "q.exitCheckOrder" =>
       if v == "queueLenFirst" then some { st with hcfg := { st.hcfg with exitOrder := .queueLenFirst } }
@@ -187,6 +196,7 @@ def parseNatKV (toks : List String) (k : String) (d : Nat) : Nat :=
   | none => d
 
 def stepD (st : DSt) (toks : List String) : DSt × String :=
+  if st.dead && toks.head? != some "cfg" && toks.head? != some "open" then (st, "skipped\t*") else
   match toks with
   | "cfg" :: kvs =>
     match kvs.foldlM setCfg st with
@@ -198,7 +208,24 @@ def stepD (st : DSt) (toks : List String) : DSt × String :=
       maxBatchSize := parseNatKV kvs "mbs" 1048576, wbCount := parseNatKV kvs "wbc" 64,
       wbSize := parseNatKV kvs "wbs" 1048576, hotLimit := parseNatKV kvs "hot" 0,
       valThreshold := parseNatKV kvs "vt" 1024 }
-    ({ st with p := p, s := St.init 8, parked := [], atClose := [], outstanding := [], spec := [] }, "ok\t*")
+    ({ st with p := p, s := St.init 8, parked := [], atClose := [], outstanding := [], spec := [],
+               mt := parseNatKV kvs "mt" 0, dead := false }, "ok\t*")
+  -- `setfill t k free delta`: a write whose size estimate is (free space of the active
+  -- memtable, as reported by the implementation) + delta - 2^20; the value stays inline
+  | ["setfill", t, k, free, d] =>
+    match natOf? t, bytesOf? k, natOf? free, natOf? d with
+    | some t, some k, some free, some d =>
+      if st.dead then (st, "skipped\t*")
+      else if st.mt == 0 then (st, "needs-open\t*")
+      else
+        let est := free + d - 1048576
+        let wal := st.mt - free
+        if st.mt > 0 && packDone st.pcfg st.mt wal est == false then
+          ({ st with dead := true }, "stuck\tok")
+        else
+          let (st', out) := doCall st t (.set k [0x66])
+          (st', out)
+    | _, _, _, _ => (st, "bad-op")
   | ["set", t, k, v] =>
     match natOf? t, bytesOf? k, bytesOf? v with
     | some t, some k, some v => doCall st t (.set k v)
